@@ -173,7 +173,8 @@ def install(route, S, tmp):
             if not vals:
                 return False
         section = {"nbdiff": "NbDiff", "nbdiff-generic-section": "Diff", "git-nbdiffdriver": "NbDiffDriver",
-                   "git-nbdiffdriver-generic-section": "GitDiff", "git-nbdifftool": "NbDiffTool"}[entry]
+                   "git-nbdiffdriver-generic-section": "GitDiff", "git-nbdifftool": "NbDiffTool",
+                   "nbmerge": "NbMerge", "git-nbmergedriver": "NbMergeDriver", "git-nbmergedriver-generic-section": "Merge"}[entry]
         with open(os.path.join(tmp, "nbdime_config.json"), "w") as f:
             json.dump({section: vals}, f)
         cwd = os.getcwd()
@@ -183,6 +184,23 @@ def install(route, S, tmp):
             if entry.startswith("nbdiff"):
                 ns = app._build_arg_parser("nbdiff").parse_args(["a.ipynb", "b.ipynb"])
                 process_diff_flags(ns)
+            elif entry == "nbmerge":
+                # (the merge commands configure the same process-wide differ: their diffs of base->local / base->remote
+                # leave out the ignored categories the same way)
+                import nbdime.nbmergeapp as mapp
+                sys.argv[0] = "nbmerge"       # the parser takes its program name (= the entry point) from there
+                ns = mapp._build_arg_parser().parse_args(["b.ipynb", "l.ipynb", "r.ipynb"])
+                process_diff_flags(ns)
+            elif entry.startswith("git-nbmergedriver"):
+                import nbdime.vcs.git.mergedriver as m
+                import nbdime.nbmergeapp as mapp
+                real = mapp.main_merge
+                mapp.main_merge = lambda opts: process_diff_flags(opts) or 0
+                sys.argv[0] = "git-nbmergedriver"
+                try:
+                    m.main(["merge", "b.ipynb", "l.ipynb", "r.ipynb", "7", "p.ipynb"])
+                finally:
+                    mapp.main_merge = real
             elif entry.startswith("git-nbdiffdriver"):
                 import nbdime.vcs.git.diffdriver as m
                 real = app.main_diff
@@ -506,7 +524,8 @@ def run_shard(spec):
     os.makedirs(tmp, exist_ok=True)
     os.chdir(os.environ.get("VMON_SCRATCH", "/tmp"))
     routes = ["positive", "negative", "ignore-direct", "ignore-config-file", "config-booleans"]
-    cb_entries = ["nbdiff", "git-nbdiffdriver", "git-nbdifftool", "nbdiff-generic-section", "git-nbdiffdriver-generic-section"]
+    cb_entries = ["nbdiff", "git-nbdiffdriver", "git-nbdifftool", "nbdiff-generic-section", "git-nbdiffdriver-generic-section",
+                  "nbmerge", "git-nbmergedriver", "git-nbmergedriver-generic-section"]
     if "replay" in spec:
         c = spec["replay"]["case"]
         nbd.hygiene()
